@@ -449,7 +449,15 @@ pub fn run_level_b(
                         let nl = if rendered[i].no_final_newline { "" } else { "\n" };
                         write_file(&root, base_path, &(lines.join("\n") + nl));
                     }
-                    FileDiff::Added => {}
+                    FileDiff::Added => {
+                        if f.was_symlink {
+                            let link = root.join(&f.path);
+                            if let Some(d) = link.parent() {
+                                let _ = std::fs::create_dir_all(d);
+                            }
+                            let _ = std::os::unix::fs::symlink(OLD_LINK_TARGET, &link);
+                        }
+                    }
                 }
             }
             git(&root, &["add", "-A", "-f"])?;
@@ -457,7 +465,12 @@ pub fn run_level_b(
             for &i in &order {
                 let f = &world.files[i];
                 match &f.diff {
-                    FileDiff::Added => write_file(&root, &f.path, &rendered[i].text),
+                    FileDiff::Added => {
+                        if f.was_symlink {
+                            let _ = std::fs::remove_file(root.join(&f.path));
+                        }
+                        write_file(&root, &f.path, &rendered[i].text)
+                    }
                     FileDiff::Insert { renamed_from, .. } => {
                         if let Some(old) = renamed_from {
                             let _ = std::fs::remove_file(root.join(old));
